@@ -22,7 +22,7 @@ fn case(rng: &mut Rng, idx: u64, rec: &mut Rec) {
     let mut variant: u16 = rng.below(4) as u16 | [0u16, 0, 0, 8, 16, 0, 0, 0][rng.below(8) as usize] | (rng.below(4) as u16) << 5;
     // one more head write after completion; an HTTP/1.0 request; a flow produced by a redirect whose
     // original was chunked (the content-length added in Prepare is this body's own framing)
-    variant |= [0u16, 0, 256, 512, 0, 0, 2048, 0][rng.below(8) as usize];
+    variant |= [0u16, 0, 256, 512, 4096, 0, 2048, 0][rng.below(8) as usize];
     if variant & 2048 != 0 && !use_call {
         rec.cov("sender-route/redirected-with-own-content-length");
     }
